@@ -97,11 +97,15 @@ type RecMem struct {
 	Wr    [][2]int
 	old   map[uint16]uint8 // value before the first write of this Step
 	OnGet func(a uint16)   // optional callback (devices raising interrupts)
+	OnAny func()           // optional callback at every access (read or write)
 	Count int              // total accesses
 }
 
 func (m *RecMem) tick() {
 	m.Count++
+	if m.OnAny != nil {
+		m.OnAny()
+	}
 	if m.Acc != nil {
 		*m.Acc++
 		if m.Hook != nil {
@@ -224,6 +228,8 @@ type Machine struct {
 	Warn         int   // warnings logged by the tinycpm IO
 	conMark      int
 	warnMark     int
+	Bare         bool
+	before       []uint8 // bare mode: memory image before the Step
 }
 
 func b2i(b bool) int {
@@ -293,6 +299,7 @@ func PendDec(p []int) *z80.Interrupt {
 
 // InitSpec is everything an init event says.
 type InitSpec struct {
+	Bare    bool // attach the real memory object directly to the CPU (no recording wrapper): type-specific fast paths
 	Sid     int // scenario id (passed through to the init event for replays)
 	R       [27]int
 	Halt    bool
@@ -312,6 +319,10 @@ func NewMachine(is *InitSpec) *Machine {
 	}
 	m.Mem = &RecMem{Inner: inner, Acc: &m.Acc}
 	cpu := &z80.CPU{Memory: m.Mem}
+	if is.Bare {
+		cpu.Memory = inner
+		m.Bare = true
+	}
 	switch is.IO.Kind {
 	case "nil":
 	case "hash":
@@ -385,8 +396,11 @@ func jU16(xs []uint16) string {
 func EmitInit(w *bufio.Writer, is *InitSpec) {
 	r := is.R
 	img := ""
+	if is.Bare {
+		img = `,"bare":true`
+	}
 	if is.Dev.Kind == "image" {
-		img = `,"img":` + jInts(is.Dev.Img)
+		img += `,"img":` + jInts(is.Dev.Img)
 	}
 	fmt.Fprintf(w, `{"e":"i","sid":%d,"r":%s,"h":%d,"dev":["%s",%d,%d,%d],"io":["%s",%d,%d],"cells":%s,"iocells":%s,"pend":%s%s}`+"\n",
 		is.Sid, jInts(r[:]), b2i(is.Halt), is.Dev.Kind, is.Dev.Seed, is.Dev.Val, is.Dev.Len,
@@ -394,7 +408,41 @@ func EmitInit(w *bufio.Writer, is *InitSpec) {
 }
 
 // StepAndEmit runs one real CPU.Step and writes the step event.
+// snapshotMem / bareDiff: in bare mode the memory diff is computed from full images.
+func (m *Machine) snapshotMem() {
+	if m.before == nil {
+		m.before = make([]uint8, 65536)
+	}
+	for a := 0; a < 65536; a++ {
+		m.before[a] = m.Mem.Inner.Get(uint16(a))
+	}
+}
+
+func (m *Machine) bareDiff() [][2]int {
+	var out [][2]int
+	for a := 0; a < 65536; a++ {
+		if v := m.Mem.Inner.Get(uint16(a)); v != m.before[a] {
+			out = append(out, [2]int{a, int(v)})
+		}
+	}
+	return out
+}
+
 func (m *Machine) StepAndEmit(w *bufio.Writer) {
+	if m.Bare {
+		m.snapshotMem()
+	}
+	req := m.CPU.Interrupt
+	var reqData []uint8
+	if req != nil {
+		reqData = append([]uint8(nil), req.Data...)
+	}
+	defer func() {
+		// the request object belongs to the device that raised it: Step must not write into it
+		if req != nil && string(reqData) != string(req.Data) {
+			fmt.Fprintf(w, `{"e":"x","what":"request-mutated","msg":"Step changed Interrupt.Data from %v to %v"}`+"\n", reqData, req.Data)
+		}
+	}()
 	m.Mem.Reset()
 	if m.IO != nil {
 		m.IO.Reset()
@@ -410,6 +458,12 @@ func (m *Machine) EmitStep(w *bufio.Writer) {
 	var pio [][3]int
 	if m.IO != nil {
 		pio = m.IO.Log
+	}
+	if m.Bare {
+		fmt.Fprintf(w, `{"e":"s","bare":1,"r":%s,"h":%d,"rd":[],"wr":[],"pio":%s,"md":%s,"hc":[%d,%d],"pend":%s}`+"\n",
+			jInts(r[:]), b2i(m.CPU.HALT), jTriples(pio), jPairs(m.bareDiff()),
+			m.H.N-m.lastN, m.H.I-m.lastI, jInts(PendEnc(m.CPU.Interrupt)))
+		return
 	}
 	fmt.Fprintf(w, `{"e":"s","r":%s,"h":%d,"rd":%s,"wr":%s,"pio":%s,"md":%s,"hc":[%d,%d],"pend":%s}`+"\n",
 		jInts(r[:]), b2i(m.CPU.HALT), jU16(m.Mem.Rd), jPairs(m.Mem.Wr), jTriples(pio), jPairs(m.Mem.Diff()),
@@ -428,11 +482,15 @@ type RunSpec struct {
 	BPNil  bool  `json:"bpnil"`  // leave CPU.BreakPoints nil
 	Sched  []int `json:"sched"`  // [at, pend...]: a device stores the request at its at-th bus access
 	Cancel int   `json:"cancel"` // > 0: cancel the context at this bus access; -1: cancelled before the call
+	BPSwap []int `json:"bpswap"` // [at, addr...]: a callback assigns a NEW BreakPoints map at its at-th bus access
 }
 
 // RunAndEmit performs one real CPU.Run and writes the run event.
 // A panic or a Run that does not return within the watchdog becomes an "x" event.
 func (m *Machine) RunAndEmit(w *bufio.Writer, rs *RunSpec, watchdog time.Duration) bool {
+	if m.Bare {
+		m.snapshotMem()
+	}
 	m.Mem.Reset()
 	if m.IO != nil {
 		m.IO.Reset()
@@ -456,6 +514,13 @@ func (m *Machine) RunAndEmit(w *bufio.Writer, rs *RunSpec, watchdog time.Duratio
 	hook := func(n int) {
 		if len(rs.Sched) > 0 && n == rs.Sched[0] {
 			m.CPU.Interrupt = PendDec(rs.Sched[1:])
+		}
+		if len(rs.BPSwap) > 0 && n == rs.BPSwap[0] {
+			nb := map[uint16]struct{}{}
+			for _, a := range rs.BPSwap[1:] {
+				nb[uint16(a)] = struct{}{}
+			}
+			m.CPU.BreakPoints = nb
 		}
 		if rs.Cancel > 0 && n == rs.Cancel {
 			cancel()
@@ -526,12 +591,29 @@ func (m *Machine) RunAndEmit(w *bufio.Writer, rs *RunSpec, watchdog time.Duratio
 		sched = []int{}
 	}
 	extra := ""
+	if m.Bare {
+		extra = `,"bare":1`
+	}
 	if m.IOD.Kind == "console" {
-		extra = fmt.Sprintf(`,"con":%s,"warn":%d`, jInts(m.Con[m.conMark:]), m.Warn-m.warnMark)
+		extra += fmt.Sprintf(`,"con":%s,"warn":%d`, jInts(m.Con[m.conMark:]), m.Warn-m.warnMark)
 		m.conMark, m.warnMark = len(m.Con), m.Warn
 	}
-	fmt.Fprintf(w, `{"e":"r","bp":%s,"sched":%s,"cancel":%d,"err":"%s","nacc":%d,"r":%s,"h":%d,"md":%s,"pio":%s,"hc":[%d,%d],"pend":%s%s}`+"\n",
-		jInts(bp), jInts(sched), rs.Cancel, errs, m.Acc, jInts(r[:]), b2i(m.CPU.HALT), jPairs(m.Mem.Diff()), jTriples(pio),
+	fmt.Fprintf(w, `{"e":"r","bp":%s,"sched":%s,"bpswap":%s,"cancel":%d,"err":"%s","nacc":%d,"r":%s,"h":%d,"md":%s,"pio":%s,"hc":[%d,%d],"pend":%s%s}`+"\n",
+		jInts(bp), jInts(sched), jInts(bpswapOf(rs)), rs.Cancel, errs, m.Acc, jInts(r[:]), b2i(m.CPU.HALT), jPairs(m.memDiff()), jTriples(pio),
 		m.H.N-m.lastN, m.H.I-m.lastI, jInts(PendEnc(m.CPU.Interrupt)), extra)
 	return true
+}
+
+func bpswapOf(rs *RunSpec) []int {
+	if rs.BPSwap == nil {
+		return []int{}
+	}
+	return rs.BPSwap
+}
+
+func (m *Machine) memDiff() [][2]int {
+	if m.Bare {
+		return m.bareDiff()
+	}
+	return m.Mem.Diff()
 }
